@@ -569,8 +569,11 @@ class CoreEnforcer:
 
     @staticmethod
     def _get_expression(expr, functions=None):
-        expr = expr.replace("&&", " and ")
-        expr = expr.replace("||", " or ")
-        expr = re.sub(r"!(?!=)", "not ", expr)
+        def rewrite_operators(part):
+            part = part.replace("&&", " and ")
+            part = part.replace("||", " or ")
+            return re.sub(r"!(?!=)", "not ", part)
+
+        expr = util.sub_outside_literals(rewrite_operators, expr)
 
         return SimpleEval(expr, functions)
